@@ -404,9 +404,10 @@ fn same_at(a: &V, b: &V, path: &str, strict_ver: bool) -> Result<(), String> {
     }
 }
 
-/// Component-wise comparison of C01/C02 (grid `ver` not compared).
+/// Component-wise comparison of C01/C02. The grid `ver` is a component too: it is a public field
+/// of `Grid`, part of the library's own `==`, and both codecs carry it.
 pub fn same(a: &V, b: &V) -> Result<(), String> {
-    same_at(a, b, "$", false)
+    same_at(a, b, "$", true)
 }
 
 /// As `same`, and grid `ver` must agree too (C11: "loses nothing the first decode kept").
